@@ -1423,8 +1423,11 @@ class Scenarios(Gen):
             else:
                 fr = sorted(r.random() for _ in range(m))
             # first-use windows are short and at the very start: always probe them
+            # (a context switch costs microseconds: be generous)
             fr = sorted(fr + [r.random() * 0.004, r.random() * 0.03, r.random() * 0.12,
-                              r.random() * 0.35])
+                              r.random() * 0.35] +
+                        [r.random() * 0.02 for _ in range(6)] +
+                        [r.random() ** 2 * 0.2 for _ in range(6)])
             others = [u for u in range(n) if u != t]
             for i, f in enumerate(fr):
                 spec["schedule"]["switches"].append(
@@ -1554,7 +1557,7 @@ class Scenarios(Gen):
         spec["prelude"] = pre.ops
         spec["schedule"]["first"] = r.randrange(ntasks)
         spec["schedule"]["style"] = "storm"
-        self.plan_storm(spec, targets, lo=6, hi=40)
+        self.plan_storm(spec, targets, lo=12, hi=120)
         if faults:
             self.plan_faults(spec, nf=r.choice([1, 2]), include_prelude=False)
             first = spec["schedule"]["first"]
@@ -2436,19 +2439,28 @@ class ColdScenarios(Scenarios):
     def scn_cold(self, faults=False):
         r = self.rng
         k = r.choice([0, 0, 1, 1, 2, 3, 6])
+        if faults and r.random() < 0.6:
+            k = 0        # the interrupted import is the first thing this interpreter loads
         spec = self._cold_spec("cold", r.sample(SUBPACKAGE_NAMES, k))
         if r.random() < 0.4:
             self.enable_adhoc(spec, r.sample(list(ADHOC), 1))
         b = Builder(self)
         firsts = []
         order = spec["server"]["import_order"]
-        cold_first = [n for n in SUBPACKAGE_NAMES if n not in order]
+        implied = set(order) | ({"optimized_bls12_381"} if "bls" in order else set())
+        cold_first = [n for n in SUBPACKAGE_NAMES if n not in implied]
         names = r.sample(SUBPACKAGE_NAMES, r.randint(1, 3))
-        if cold_first and not any(n in cold_first for n in names):
-            names[0] = r.choice(cold_first)
-        if r.random() < 0.6:
+        if cold_first and (faults or not any(n in cold_first for n in names)):
+            # the first access is to a package that really has to be loaded; with a fault
+            # planned, preferably one that pulls in other packages (something to leave
+            # half done)
+            w = [{"bls": 4.0, "secp256k1": 0.4}.get(n, 1.5) for n in cold_first]
+            first = r.choices(cold_first, w)[0]
+            names = [first] + [n for n in names if n != first][:2]
+        if r.random() < (0.6 if not faults else 0.15):
             # use the field classes (py_ecc.fields only) and the generic bases
-            # before any curve package has been imported
+            # before any curve package has been imported (rarely when a fault is
+            # planned: the interrupted import should have everything left to load)
             pre = [t for t in TEMPLATES if t.cost <= 2 and
                    (t.group in ("generic", "utils") or
                     (t.group.startswith("field:") and
@@ -2476,7 +2488,7 @@ class ColdScenarios(Scenarios):
         self.fill(b, gen, len(b.ops) + r.randint(1, 3), 600)
         spec["tasks"] = [b.ops]
         if faults and firsts:
-            k = firsts[0] if r.random() < 0.7 else r.choice(firsts)
+            k = firsts[0] if r.random() < 0.85 else r.choice(firsts)
             spec["faults"].append({"kind": "async_exc", "task": 0, "op": k, "frac": r.random(),
                                    "exc": r.choice(["SimInterrupt", "KeyboardInterrupt",
                                                     "MemoryError", "RecursionError",
